@@ -56,15 +56,16 @@ def body(chk: check.Check):
     chk.extra['phase_seconds'] = phases
     # ------------------------------------------------------------------ (A) the model
     if quick:
-        runs = [('lemma', 3, 2, 'any', (2,), False), ('main', 5, 3, 'any', (2,), False), ('mev', 4, 1, 'blocks', (2,), False),
-                ('full', 5, 3, 'sorted', (2, 5), True)]
+        runs = [('lemma', 3, 2, 'any', (2,), False), ('main', 4, 3, 'any', (2,), False), ('main', 5, 3, 'blocks', (2,), False),
+                ('mev', 4, 1, 'blocks', (2,), False), ('full', 4, 3, 'sorted', (2, 5), True), ('full', 5, 2, 'sorted', (2, 5), True)]
     else:
         runs = [('lemma', 4, 2, 'any', (2,), False), ('main', 5, 3, 'any', (2,), False), ('main', 6, 3, 'blocks', (2,), False),
-                ('mev', 5, 1, 'blocks', (2,), False), ('full', 6, 3, 'sorted', (2, 5), True)]
+                ('mev', 5, 1, 'blocks', (2,), False), ('full', 5, 3, 'sorted', (2, 5), True), ('full', 6, 2, 'sorted', (2, 5), True),
+                ('full', 7, 1, 'sorted', (2, 5, 3), True)]
 
     def one(r):
         mode, n, maxs, order, xs, emit = r
-        return sp.run_model(mode, n, maxs, order, xs=xs, emit=emit, workers=4 if quick else 8, timeout=1500)
+        return sp.run_model(mode, n, maxs, order, xs=xs, emit=emit, workers=3 if quick else 6, timeout=1500)
 
     with concurrent.futures.ThreadPoolExecutor(max_workers=len(runs)) as ex:
         futures = [ex.submit(one, r) for r in runs]
@@ -152,7 +153,7 @@ def small_instances(nmax):
 def record_traces(chk, rng, quick):
     items = []
     smalls = list(small_instances(4 if quick else 5))
-    reps = 4 if quick else 8
+    reps = 3 if quick else 8
     for k, inst in enumerate(smalls):
         for r in range(reps):
             items.append((inst, chk.seed + 7919 * r + k, 'small'))
@@ -167,7 +168,7 @@ def record_traces(chk, rng, quick):
                         inst = sp.make_instance(alts, [(ids, rng.randint(1, n))], list(zip(part, ks)))
                         for r in range(2 if quick else 4):
                             items.append((inst, chk.seed + 104729 * r + len(items), 'small-mev'))
-    nrand = 500 if quick else 5000
+    nrand = 400 if quick else 3000
     for k in range(nrand):
         big = (not quick) and k % 5 == 0
         inst = sp.random_instance(rng, 2 if not big else 9, 8 if not big else 16)
@@ -197,7 +198,7 @@ def judge_traces(chk, recorded):
             e['tid'] = tid
         groups.append(g)
         meta.append((inst, seed, family, val))
-    verdicts, results = sp.validate(groups, parts=8 if len(groups) < 3000 else 16)
+    verdicts, results = sp.validate(groups, parts=16)
     for k, r in enumerate(results):
         chk.add_tlc(f'SamplingTrace file {k + 1}/{len(results)}', r)
     stats = dict(contexts=len(meta), rows=0, rows_with_second_sample=0, positions=0, rows_grouped_by_stratum=0,
@@ -291,8 +292,11 @@ def judge_inputs(chk, cases):
 def controls(chk, recorded, emitted):
     items, res = recorded
     # (1) model level: mutated samplers / corrections / likelihood must violate the invariants
-    for kind, inv in (('k-besides-chosen', 'Protocol'), ('first-stratum-correction', 'Protocol'), ('equivalence-claimed-for-partial-sampling', 'FullEquiv')):
-        r = sp.run_mutant_model(kind)
+    kinds = (('k-besides-chosen', 'Protocol'), ('first-stratum-correction', 'Protocol'),
+             ('equivalence-claimed-for-partial-sampling', 'FullEquiv'))
+    with concurrent.futures.ThreadPoolExecutor(max_workers=3) as ex:
+        mres = list(ex.map(lambda k: sp.run_mutant_model(k[0]), kinds))
+    for (kind, inv), r in zip(kinds, mres):
         chk.control(f'spec mutant: {kind}', r.violated == inv, f'TLC: {r.violated or (r.error or "")[:200]}')
 
     # (2) code -> spec: corruptions of recorded rows must be rejected with the right clause
@@ -381,7 +385,7 @@ def controls(chk, recorded, emitted):
     # (4) wrong code recorded with the real recorder (patched in a forked child)
     wide = next(s for s in inst['strata'] if s['k'] >= 2)
     ind = next(i for i in inst['inds'] if i[0] in wide['sub'])
-    st, out = rt.forked(_record_wrong_sampler, inst, chk.seed, ind)
+    st, out = rt.forked(_quiet, _record_wrong_sampler, inst, chk.seed, ind)
     if st != 'ok':
         raise MachineryError(f'control recording failed: {out}')
     g = [out['inst']] + out['rows']
@@ -398,15 +402,15 @@ def controls(chk, recorded, emitted):
     rec = next(r for r in emitted if r['hasmev'] and len(r['strata']) >= 2)
     mut = copy.deepcopy(rec)
     mut['logit']['a']['p'][0]['n'] += 1
-    st, out = rt.forked(sp.replay_full, (mut, chk.seed, None))
+    st, out = rt.forked(_quiet, sp.replay_full, (mut, chk.seed, None))
     chk.control('expected mutant: one expected probability of the full logit moved',
                 st == 'ok' and any(k.startswith('full:sampled-logit') for k, _, _ in out['problems'])
                 and any(k.startswith('full:full-logit') for k, _, _ in out['problems']))
-    st, out = rt.forked(sp.replay_full, (rec, chk.seed, 'halve-one-correction'))
+    st, out = rt.forked(_quiet, sp.replay_full, (rec, chk.seed, 'halve-one-correction'))
     chk.control('corrupted table: ln(1/2) added to the correction of the chosen alternative in the generated table',
                 st == 'ok' and any(k.startswith('full:sampled-logit') for k, _, _ in out['problems'])
                 and not any(k.startswith('full:full-logit') for k, _, _ in out['problems']))
-    st, out = rt.forked(sp.replay_full, (rec, chk.seed, None))
+    st, out = rt.forked(_quiet, sp.replay_full, (rec, chk.seed, None))
     chk.control('unmodified replay of the same instance is clean', st == 'ok' and not out['problems'])
 
     # (6) input judgement: the spec must call a valid input valid and name the clause of an invalid one
@@ -430,6 +434,14 @@ def controls(chk, recorded, emitted):
         other['clause'] = 'sampled-logit'
         chk.control(f"known-finding matcher {fnd['id']}: a violation of another clause is not matched",
                     not check._matches(m, other))
+
+
+def _quiet(fn, *args):
+    import os
+
+    dn = os.open(os.devnull, os.O_WRONLY)
+    os.dup2(dn, 2)
+    return fn(*args)
 
 
 def _record_wrong_sampler(inst, seed, ind):
